@@ -53,6 +53,17 @@ func c02Context(ctx string, f string) string {
 		return "(repeat (act (emit 100) (draw q (custom (draw c (custom (draw c (i 0 9)) " + f + " (ret c))) (ret c))) (emit 200)))"
 	case "nested-cleanup":
 		return "(cleanup (cleanup " + f + "))"
+	// the panic of the signal is replaced on its way up by a cleanup that skips
+	case "custom-skipping-cleanup":
+		return "(draw cv (custom (draw c (i 0 9)) (cleanup (skip)) " + f + " (ret c)))"
+	case "custom-under-skipping-cleanup":
+		return "(cleanup (skip)) (draw cv (custom (draw c (i 0 9)) " + f + " (ret c)))"
+	case "body-skipping-cleanup":
+		return "(cleanup (skip)) " + f
+	case "action-skipping-cleanup":
+		return "(repeat (act (emit 100) (draw q (i 0 3)) (cleanup (skip)) " + f + " (emit 200)))"
+	case "nested-custom-skipping-cleanup":
+		return "(draw cv (custom (cleanup (skip)) (draw c (custom (draw c (i 0 9)) " + f + " (ret c))) (ret c)))"
 	case "action-cleanup":
 		return "(repeat (act (emit 100) (draw q (i 0 3)) (cleanup " + f + ") (emit 200)))"
 	}
@@ -60,7 +71,8 @@ func c02Context(ctx string, f string) string {
 }
 
 var c02Contexts = []string{"body", "action", "invariant", "custom", "cleanup", "custom-cleanup", "nested-cleanup", "action-cleanup",
-	"nested-custom", "nested-custom-cleanup", "custom-element", "custom-in-action"}
+	"nested-custom", "nested-custom-cleanup", "custom-element", "custom-in-action",
+	"custom-skipping-cleanup", "custom-under-skipping-cleanup", "body-skipping-cleanup", "action-skipping-cleanup", "nested-custom-skipping-cleanup"}
 
 // where in the run the falsifying case occurs
 func c02Position(pos string, stmt string) string {
@@ -448,6 +460,7 @@ func init() {
 		}
 		// Spec generators on adversarial buffers and on the PRNG
 		for i := 0; i < 1500*scale; i++ {
+			r.customFatal = 8 // no failing Custom functions here: a failure of user code is not a broken contract
 			sx, _ := r.anyGen(1 + r.intn(3))
 			usePRNG := r.chance(1, 3)
 			ws := r.words(40)
